@@ -182,6 +182,8 @@ def _ref_matprod(t, a, p):
 
 def _real_matprod(c, a, p):
     A, B = _mat(a[0], p['r']), _mat(a[1], p['s'])
+    if p.get('same'):
+        B = A       # the very same list object for both arguments (A @ A, or A @ A^T with tr)
     C = c.rt.matrix_prod(A, B, tr=bool(p.get('tr')))
     return [[v for row in C for v in row]]
 
@@ -522,6 +524,10 @@ class Gen:
                     return False
                 y, r, c_, q = rng.choice(opts)
                 tr = rng.random() < 0.3
+                squares = [(r2, n // r2) for r2 in (1, 2, 3) if n and n % r2 == 0 and (tr or n // r2 == r2)]
+                if squares and rng.random() < 0.35:
+                    r2, c2 = rng.choice(squares)
+                    return self.try_op(opn, [a, a], {'r': r2, 's': r2, 'tr': tr, 'same': True}, ['L'])
                 return self.try_op(opn, [a, y], {'r': r, 's': q if tr else c_, 'tr': tr}, ['L'])
             cands = [y for y in L if len(self.val[y]) == len(self.val[a])]
             return self.try_op(opn, [a, rng.choice(cands)], {}, ['L'])
@@ -621,9 +627,37 @@ class Gen:
             self.val[o] = sub.val[r]
             self.S.append(o)
 
+    def matrix_scenario(self):
+        """Matrices as lists of lists: products of distinct matrices, of a matrix with itself (the same object:
+        the library has an A @ A^T shortcut keyed on identity), with and without transposition; sums."""
+        rng = self.rng
+        r, c_ = rng.choice(((2, 2), (2, 2), (3, 3), (2, 3), (1, 3), (3, 1)))
+        small = [v for v in self.S if isinstance(self.val[v], int) and abs(self.val[v]) <= 12] or None
+        if small is None:
+            self.try_op('const', [], {'value': rng.randint(-3, 3)}, ['S'])
+            small = [self.S[-1]]
+        if len(small) < 3:
+            for _ in range(3):
+                self.try_op('const', [], {'value': rng.randint(-4, 4)}, ['S'])
+                small.append(self.S[-1])
+        if not self.try_op('mklist', [rng.choice(small) for _ in range(r * c_)], {}, ['L']):
+            return
+        a = self.L[-1]
+        tr = rng.random() < 0.4
+        if (tr or r == c_) and rng.random() < 0.6:
+            self.try_op('matrix_prod', [a, a], {'r': r, 's': r, 'tr': tr, 'same': True}, ['L'])
+        else:
+            q = rng.randint(1, 3)
+            if not self.try_op('mklist', [rng.choice(small) for _ in range(c_ * q)], {}, ['L']):
+                return
+            b = self.L[-1]
+            self.try_op('matrix_prod', [a, b], {'r': r, 's': q if tr else c_, 'tr': tr}, ['L'])
+
     def build(self):
         rng = self.rng
         self.add_inputs()
+        if (self.allow is None or 'list' in self.allow) and rng.random() < 0.06:
+            self.matrix_scenario()
         for _ in range(self.size):
             if self.effects and rng.random() < 0.35:
                 self.effect()
